@@ -2,7 +2,11 @@ package main
 
 import (
 	"bytes"
+	"context"
+	"errors"
 	"fmt"
+	"net/http"
+	"net/http/httptest"
 	"strings"
 
 	tpl "code.gopub.tech/tpl"
@@ -91,4 +95,56 @@ func safeRTS(t types.Template, d any) (s string, err error) {
 		}
 	}()
 	return tpl.RenderToString(t, d)
+}
+
+// failingRW is an http.ResponseWriter whose Write fails after `okWrites` successful writes.
+type failingRW struct {
+	hdr      http.Header
+	okWrites int
+	n        int
+	body     strings.Builder
+}
+
+func (w *failingRW) Header() http.Header { return w.hdr }
+func (w *failingRW) WriteHeader(int)     {}
+func (w *failingRW) Write(b []byte) (int, error) {
+	if w.n >= w.okWrites {
+		return 0, errors.New("broken pipe")
+	}
+	w.n++
+	w.body.Write(b)
+	return len(b), nil
+}
+
+// instanceHistory: ONE types.Render obtained from a reloadable renderer is rendered several times, to writers that fail
+// at different points and to healthy ones, in every order of (fail, ok): each Render depends on the template, the data
+// and ITS writer only. Returns "" or a description of the first deviation.
+func instanceHistory(hot bool) string {
+	src := `<h1 :text="${title}">t</h1><ul><li :range="_, x : xs" :text="${x}">o</li></ul><p>end</p>`
+	want := "<h1>T</h1><ul><li>1</li><li>2</li></ul><p>end</p>"
+	rr, err := tpl.NewHTMLRender(func(ctx context.Context) (types.TemplateManager, error) {
+		m := html.NewTplManager()
+		return m, m.Add("page", strings.NewReader(src))
+	}, tpl.WithHotReload(hot))
+	if err != nil {
+		return "renderer does not build: " + err.Error()
+	}
+	data := map[string]any{"title": "T", "xs": []int{1, 2}}
+	for _, plan := range [][]int{{0, -1, -1}, {-1, 0, -1}, {2, -1, 1, -1}, {1, 1, -1}, {-1, -1}, {0, 0, -1, -1}} {
+		inst := rr.Instance(context.Background(), "page", data)
+		for step, failAfter := range plan {
+			if failAfter >= 0 {
+				w := &failingRW{hdr: http.Header{}, okWrites: failAfter}
+				if err := inst.Render(w); err == nil {
+					return fmt.Sprintf("plan %v step %d: Render to a writer that fails after %d writes returned nil", plan, step+1, failAfter)
+				}
+				continue
+			}
+			w := httptest.NewRecorder()
+			if err := inst.Render(w); err != nil || w.Body.String() != want {
+				return fmt.Sprintf("plan %v step %d (hot reload %v): Render of the same instance to a healthy writer gave %q, error %v; want %q", plan, step+1, hot, trunc(w.Body.String(), 200), err, want)
+			}
+		}
+	}
+	return ""
 }
